@@ -188,7 +188,13 @@ class Gen:
         if 'B' in used and rng.random() < 0.3 and not any(
                 m == 'buf' for m in members):
             if any(m == 'bool' for m in members):
-                members.append('buf')
+                if rng.random() < 0.3:
+                    # bool_union_fix without bool next to it (what
+                    # Union[int, bool, bool_union_fix] collapses to on old
+                    # Pythons) stands for bool all the same
+                    members[members.index('bool')] = 'buf'
+                else:
+                    members.append('buf')
         if len(members) < 2:
             return members[0] if members else 'int'
         return ['union'] + members
